@@ -21,7 +21,7 @@ HINT = "metadata.version-hint.text"
 # yield granularity: the protocol-significant operations (DESIGN.md C01 quantifier)
 # ---------------------------------------------------------------------------------------------------
 def protocol_yield_filter(op: str, path: str, phase: tuple) -> bool:
-    if op in ("LockTry", "LockRel", "Fence", "Sleep", "Tick"):
+    if op in ("LockTry", "LockFlock", "LockRel", "Fence", "Sleep", "Tick"):
         return True
     if path.endswith(HINT) and op in ("read_file", "read_file_with_etag", "write_file", "write_file_cas"):
         return True
@@ -238,6 +238,7 @@ def run_case(scratch: str, case: Dict[str, Any], chooser_factory: Callable[[S.Sc
     shutil.rmtree(root, ignore_errors=True)
     res = CaseResult()
     sc = S.Scheduler()
+    sc.fine_locks = bool(case.get("fine_locks", False))      # file-lock attempts: open and flock are separate steps
     _CURRENT[0] = sc
     sc.yield_filter = case.get("yield_filter", protocol_yield_filter)
     lock_mode = case.get("lock", "real")
@@ -372,6 +373,7 @@ def project(res: CaseResult, nactors: int, cas: bool = False, lease: bool = Fals
     notes: List[str] = []
     pending_validate: Dict[str, int] = {}      # actor -> index into events of its open EValidate (verdict filled later)
     validated: Dict[str, bool] = {}
+    lock_ev: Dict[str, int] = {}               # actor -> index into events of its latest ELockTry (moved to the flock when fine-grained)
     n_known = 0
     holder: Optional[str] = None
     for idx, e in enumerate(res.log):
@@ -415,7 +417,20 @@ def project(res: CaseResult, nactors: int, cas: bool = False, lease: bool = Fals
                 if holder is not None and holder != a:
                     events.append((ai, "ESteal"))          # the lease had lapsed: the attempt took the lock over
                 holder = a
+            lock_ev[a] = len(events)
             events.append((ai, f"ELockTry {'true' if result == 'ok' else 'false'}"))
+        elif op == "LockFlock":
+            # fine-grained file lock: the attempt is DECIDED here (flock on the inode opened at LockTry), not at the open
+            if a in lock_ev and lock_ev[a] < len(events) and events[lock_ev[a]][1].startswith("ELockTry"):
+                ev = events.pop(lock_ev[a])
+                for k2 in list(pending_validate):
+                    if pending_validate[k2] > lock_ev[a]:
+                        pending_validate[k2] -= 1
+                for k2 in list(lock_ev):
+                    if lock_ev[k2] > lock_ev[a]:
+                        lock_ev[k2] -= 1
+                lock_ev[a] = len(events)
+                events.append(ev)
         elif op == "write_file" and pcs == "meta":
             if not in_mm_commit:
                 raise Nonconforming(f"metadata file written outside commit at log[{idx}]")
